@@ -22,7 +22,10 @@ from .. import proto
 from ..core import Check, Problem, register
 from .c11 import o_metric, o_div, o_sub_one, box
 
-TOL = 1e-9
+# review R2: measured on the clean tree (quick + thorough generators, 35 000 float-vs-exact comparisons, n_boot up to 40):
+# max |float - exact| / (1 + |exact|) = 6.7e-16; ordering inversions between quantiles: none (max 0.0).
+TOL = 5e-14        # < 100 x the measured maximum (was 1e-9)
+ORDER_TOL = 1e-14  # slack of the "non-decreasing in the quantile" test (was 1e-12; measured inversions: none)
 SF = ["a", "b", "c"]
 SF_INT = [3, 10, 20]
 SF2 = ["x", "y"]
@@ -172,10 +175,14 @@ class CHECK(Check):
             "const,spy) or callable metrics, n_boot in {1,2,3,5,8,12} (thorough up to 40), 1..4 quantiles from a pool in (0,1) in "
             "arbitrary order, integer seeds (0, small, 31-bit, >32-bit); every case builds the bootstrapped MetricFrame twice "
             "with the same seed and once with another seed; distinct = distinct (data, layout, metrics, n_boot, quantiles, "
-            "seed); non-trivial = n_boot >= 2 and the overall value of some metric differs between two resamples")
+            "seed); non-trivial = n_boot >= 2 and the overall value of some metric differs between two resamples. Further "
+            "generator restrictions: predictions are labels {0,1} (10% of the cases constant) or, for a callable mean_prediction, "
+            "scores k/8; the constant metric returns k/4 in [-1,3]; weights are integers 1..3; group labels are 'a','b','c' or "
+            "3,10,20; the relations count_is_n / constant_metric / nonconstant_gives_width are evaluated on the overall_ci of "
+            "frames WITHOUT control features only (with control features the per-level row count is random)")
     explanation = ("theorems over the Lean model Bootstrap (all inputs; the RNG is an input of the model); correspondence: all *_ci "
                    "accessors vs exact recomputation from the replayed resample positions (Fraction oracle and compiled driver, "
-                   "abs/rel 1e-9), list lengths, types/columns/index vs point estimates, ordering, same-seed bitwise identity, "
+                   "|float - exact| <= 5e-14 (1 + |exact|); measured max 6.7e-16), list lengths, types/columns/index vs point estimates, ordering, same-seed bitwise identity, "
                    "second seed recomputed too, spy-observed resample rows vs replay. PARTIAL: that resamples of varying data "
                    "differ is a statement about the RNG; it is observed per case (tag varying_samples), not proved")
     trusted = ("harness/lifters/bootstrap.py lifts call shapes (keywords of data.sample, np.(nan)quantile, loop / seed "
@@ -640,7 +647,7 @@ class CHECK(Check):
                                 if a == "nan" or b == "nan":
                                     if a != b:
                                         P.append(Problem("property", f"{acc} {rk} {col}: NaN at one quantile only ({a}, {b})", "C18.ci_order"))
-                                elif isinstance(a, float) and isinstance(b, float) and a > b + 1e-12 * (1 + abs(b)):
+                                elif isinstance(a, float) and isinstance(b, float) and a > b + ORDER_TOL * (1 + abs(b)):
                                     P.append(Problem("property", f"{acc} {rk} {col}: q={case['qs'][i]} gives {a} > q={case['qs'][j]} gives {b}",
                                                      "C18.ci_order"))
         # ---- (e) count is n, (f) constant metric ----------------------------------------------------------------------------
